@@ -30,7 +30,7 @@ def leaf_variants(forest, counter=None):
             else:
                 collect(k, path + (i,))
     collect(forest, ())
-    for combo in itertools.product("tsc", repeat=len(leaves)):
+    for combo in itertools.product("tsce" if len(leaves) <= 2 else "tsc", repeat=len(leaves)):
         kind = dict(zip(leaves, combo))
         evs = []
         cnt = [0]
@@ -49,9 +49,14 @@ def leaf_variants(forest, counter=None):
                 elif kd == "s":
                     evs.append(("d", "s" + lab))
                     evs.append(("x", None))
-                else:
+                elif kd == "c":
                     evs.append(("x", None))
                     evs.append(("d", "c" + lab))
+                    evs.append(("x", 4))
+                else:
+                    # an EMPTY comment: a falsy element (str(x) == "") that is a node like any other
+                    evs.append(("x", None))
+                    evs.append(("d", ""))
                     evs.append(("x", 4))
         emit(forest, ())
         yield evs
@@ -76,10 +81,15 @@ def random_doc(rng, maxnodes):
             n += 1
             evs.append(("d", "s%d" % n))
             evs.append(("x", None))
-        else:
+        elif r < 0.97:
             n += 1
             evs.append(("x", None))
             evs.append(("d", "c%d" % n))
+            evs.append(("x", 4))
+        else:
+            n += 1
+            evs.append(("x", None))
+            evs.append(("d", ""))           # empty comment (falsy element)
             evs.append(("x", 4))
     return evs
 
@@ -94,7 +104,7 @@ def relabel(evs):
         elif e[0] == "e":
             out.append(("e", "b", e[2]))
         elif e[0] == "d":
-            out.append(("d", e[1][0]))
+            out.append(("d", e[1][:1]))
         else:
             out.append(e)
     return out
@@ -138,6 +148,8 @@ class OpGen:
 
     def fresh_str(self):
         self.fresh_n += 1
+        if self.fresh_n % 9 == 0:
+            return [1, ""]                  # an empty string is an element like any other
         return [1, "n%d" % self.fresh_n]
 
     def random_op(self, rng, multi=0.4):
